@@ -70,6 +70,7 @@ func vfRunC07Case(env *vfEnv, part *vfPart, caseNo int) {
 	}()
 	var carried *vfSnapshot // holds restored by the previous restart
 	notReadmitted := map[string]bool{}
+	relockedKeys := map[string]bool{} // keys (of any phase) with a re-locked / updated hold
 	wakeEvery := []int{0, 2, 3}[rng.Intn(3)]
 	nRestarts := 2
 	if rng.Chance(25) {
@@ -87,6 +88,21 @@ func vfRunC07Case(env *vfEnv, part *vfPart, caseNo int) {
 			}
 		}
 		ph.run(rng.Range(prof.Steps[0], prof.Steps[1]))
+		vfKeyEpoch = byte(round)
+		for kid := range ph.relocked {
+			relockedKeys[fmt.Sprintf("%d/%x", kid.Db, vfKeyBytes(kid.Db, kid.Key))] = true
+		}
+		for i := range ph.eng.opLog {
+			if op := &ph.eng.opLog[i]; op.Kind == "lock" && op.Flag&protocol.LOCK_FLAG_UPDATE_WHEN_LOCKED != 0 {
+				relockedKeys[fmt.Sprintf("%d/%x", op.Db, vfKeyBytes(op.Db, op.Key))] = true
+			}
+		}
+		carriedSig := func(db uint8, key [16]byte) string {
+			if relockedKeys[fmt.Sprintf("%d/%x", db, key)] {
+				return "re-locked-or-updated-hold"
+			}
+			return ""
+		}
 		// stop at a quiescent point
 		vfAofQuiesce(cur)
 		ph.runCompactions()
@@ -179,12 +195,12 @@ func vfRunC07Case(env *vfEnv, part *vfPart, caseNo int) {
 						rh = rk.hold(ch.LockId)
 					}
 					if rh == nil {
-						fs = append(fs, vfE4Finding{Clause: "carried-hold-lost", Detail: fmt.Sprintf("%s L%d was restored by restart %d and is still alive (deadline %d, restart at %d) but is not held after restart %d", vfSnapKeyName(ck), vfLockIdIndex(ch.LockId), round, bh.Deadline, now, round+1)})
+						fs = append(fs, vfE4Finding{Clause: "carried-hold-lost", Sig: carriedSig(ck.Db, ck.Key), Detail: fmt.Sprintf("%s L%d was restored by restart %d and is still alive (deadline %d, restart at %d) but is not held after restart %d", vfSnapKeyName(ck), vfLockIdIndex(ch.LockId), round, bh.Deadline, now, round+1)})
 						continue
 					}
 					tol := vfDeadlineTolerance(bh.EFlag)
 					if rh.Depth != bh.Depth || rh.Count != bh.Count || rh.Rcount != bh.Rcount || (!vfSnapUnlimited(bh) && (rh.Deadline > bh.Deadline+tol || rh.Deadline < bh.Deadline-tol)) {
-						fs = append(fs, vfE4Finding{Clause: "carried-hold-changed", Detail: fmt.Sprintf("%s L%d: before the stop depth/Count/Rcount/deadline %d/%d/%d/%d, after the restart %d/%d/%d/%d", vfSnapKeyName(ck), vfLockIdIndex(ch.LockId), bh.Depth, bh.Count, bh.Rcount, bh.Deadline, rh.Depth, rh.Count, rh.Rcount, rh.Deadline)})
+						fs = append(fs, vfE4Finding{Clause: "carried-hold-changed", Sig: carriedSig(ck.Db, ck.Key), Detail: fmt.Sprintf("%s L%d: before the stop depth/Count/Rcount/deadline %d/%d/%d/%d, after the restart %d/%d/%d/%d", vfSnapKeyName(ck), vfLockIdIndex(ch.LockId), bh.Depth, bh.Count, bh.Rcount, bh.Deadline, rh.Depth, rh.Count, rh.Rcount, rh.Deadline)})
 					}
 				}
 			}
@@ -199,6 +215,9 @@ func vfRunC07Case(env *vfEnv, part *vfPart, caseNo int) {
 						sig := ""
 						if notReadmitted[fmt.Sprintf("%d/%x/%x", rk.Db, rk.Key, rh.LockId)] {
 							sig = "key-held-by-more-than-its-smallest-count-admits"
+						}
+						if cs := carriedSig(rk.Db, rk.Key); cs != "" {
+							sig = cs
 						}
 						fs = append(fs, vfE4Finding{Clause: "restored-not-held", Sig: sig, Detail: fmt.Sprintf("%s L%d is held after restart %d but was not held when the instance stopped", vfSnapKeyName(rk), vfLockIdIndex(rh.LockId), round+1)})
 					}
